@@ -281,6 +281,9 @@ func (pr *printer) script(sc *Script) {
 type Layout struct {
 	Kind int // 0 canonical, 1 compact, 2 whitespace mix, 3 comments, 4 one-token-per-line-ish, 5 everything
 	R    *rng.R
+	// LayoutLongLine: the gaps (token indices) that receive a very long comment, and its length
+	Gaps map[int]bool
+	Fill int
 }
 
 const (
@@ -291,6 +294,9 @@ const (
 	LayoutLines
 	LayoutWild
 	NumLayouts
+	// LayoutLongLine is not part of the rotation: single spaces, a few line breaks, and block
+	// comments of Fill characters in the chosen gaps (lines far longer than 65 536 characters)
+	LayoutLongLine = 100
 )
 
 var wsSeps = []string{" ", "  ", "\t", "\n", "\r\n", "\n\n  ", " \t ", "\n\t"}
@@ -340,6 +346,17 @@ func canGlue(l, r string) bool {
 func (l Layout) sep(left, right string, i, n int) string {
 	edge := left == "" || right == ""
 	switch l.Kind {
+	case LayoutLongLine:
+		if l.Gaps[i] {
+			return " /*" + strings.Repeat("é", l.Fill) + "*/ "
+		}
+		if edge {
+			return ""
+		}
+		if i%23 == 11 {
+			return "\n"
+		}
+		return " "
 	case LayoutCanonical:
 		if edge {
 			return ""
